@@ -23,6 +23,7 @@ structure Conn where
   rep : Option Bool := none         -- `reps[ca]`: `some ended`
   served : Nat := 0                 -- requests handed to the application
   txPending : Bool := false         -- `ixes[ca].txes` not empty
+  stalled : Bool := false           -- the peer is not reading: the socket accepts no bytes
   deriving DecidableEq, Repr
 
 structure Valet where
@@ -111,9 +112,17 @@ def Valet.repStep (v : Valet) (ca : Nat) : Valet :=
 def Valet.serviceReps (v : Valet) : Valet :=
   ((v.conns.filter (fun p => p.2.rep.isSome)).map (·.1)).foldl Valet.repStep v
 
-/-- `servant.serviceTxesAllIx()` with the harness' incomers: everything queued is sent -/
+/-- the peer of connection `ca` stops / resumes reading (its socket accepts nothing / everything) -/
+def Valet.stall (v : Valet) (ca : Nat) (b : Bool) : Valet :=
+  match lookup ca v.conns with
+  | some c => { v with conns := setConn ca { c with stalled := b } v.conns }
+  | none => v
+
+/-- `servant.serviceTxesAllIx()` with the harness' incomers: everything queued is sent on the
+connections whose peer is reading, nothing on the others -/
 def Valet.drain (v : Valet) : Valet :=
-  if v.raised then v else { v with conns := v.conns.map (fun p => (p.1, { p.2 with txPending := false })) }
+  if v.raised then v else
+    { v with conns := v.conns.map (fun p => (p.1, { p.2 with txPending := p.2.txPending && p.2.stalled })) }
 
 /-- `serviceAll` (no new connections, nothing received inside the call) -/
 def Valet.serviceAll (v : Valet) : Valet := (v.serviceReqs.serviceReps).drain
